@@ -602,6 +602,86 @@ func genSendClose(r *hx.Rng) []hx.Group {
 	return evs
 }
 
+// SUBSCRIBE / UNSUBSCRIBE requests with many filters (the SUBACK's remaining length crosses the one-byte limit at 126
+// return codes) and forwarded PUBLISH packets whose remaining length lies on either side of 127 / 128
+func genBigSubscribe(r *hx.Rng, k int) []hx.Group {
+	var evs []hx.Group
+	sizes := []int{125, 126, 127, 128, 129, 200, 60 + r.Intn(200)}
+	n := sizes[k%len(sizes)]
+	evs = append(evs, evConnect(1, true, mq.Connect(mq.ConnectOpts{ClientID: "bigs", Clean: true, KeepAlive: 60, Flags: -1})))
+	evs = append(evs, evConnect(2, true, mq.Connect(mq.ConnectOpts{ClientID: "bigp", Clean: true, KeepAlive: 60, Flags: -1})))
+	var fs []string
+	var qs []int
+	for i := 0; i < n; i++ {
+		f := "b/" + string(rune('a'+i%26)) + string(rune('a'+(i/26)%26))
+		switch {
+		case r.Chance(4):
+			f = badFilters[r.Intn(len(badFilters))]
+		case r.Chance(5) && i > 0:
+			f = fs[r.Intn(i)]
+		}
+		q := r.Intn(3)
+		if r.Chance(3) {
+			q = 3
+		}
+		fs, qs = append(fs, f), append(qs, q)
+	}
+	evs = append(evs, evBytes(1, mq.Subscribe(1+r.Intn(65535), fs, qs)))
+	last := "b/" + string(rune('a'+(n-1)%26)) + string(rune('a'+((n-1)/26)%26))
+	evs = append(evs, evBytes(2, mq.Publish(last, []byte("x"), 0, false, false, 0)))
+	evs = append(evs, evBytes(2, mq.Publish("b/aa", []byte("y"), 1, false, false, 3)))
+	// forwarded packets around the one-byte remaining-length limit: 2 + len(topic) + payload = 126 .. 129
+	for _, rl := range []int{126, 127, 128, 129} {
+		evs = append(evs, evBytes(2, mq.Publish("b/aa", r.Bytes(rl-2-4), 0, false, false, 0)))
+	}
+	m := n/2 + r.Intn(n/2)
+	evs = append(evs, evBytes(1, mq.Unsubscribe(1+r.Intn(65535), fs[:m])))
+	evs = append(evs, evBytes(2, mq.Publish("b/aa", []byte("z"), 0, false, false, 0)))
+	evs = append(evs, evBytes(2, mq.Publish(last, []byte("w"), 0, false, false, 0)))
+	return evs
+}
+
+// CONNECT packets with unusual but acceptable combinations: a password without a user name, a user name without a
+// password, keep-alive 0, an empty client identifier (the broker changes the message it stores in these cases), each
+// followed by a PINGREQ, and then by a second client that takes the same identifier with CleanSession=0: nothing of
+// the first attempt may be left behind
+func genOddConnects(r *hx.Rng, k int) []hx.Group {
+	var evs []hx.Group
+	id := 0
+	for n := 0; n < 4; n++ {
+		cid := []string{"odd", "", "odd2"}[(k+n)%3]
+		o := mq.ConnectOpts{ClientID: cid, Clean: cid == "" || r.Bool(), KeepAlive: []int{0, 60}[(k+n/2)%2], Flags: -1}
+		switch (k + n) % 4 {
+		case 0, 1:
+			o.Pass = "secret"
+		case 2:
+			o.User = "user"
+		}
+		if r.Chance(40) {
+			o.Will, o.WillTopic, o.WillMsg = true, "will/odd", []byte("gone")
+		}
+		id++
+		evs = append(evs, evConnect(id, true, mq.Connect(o)))
+		evs = append(evs, evBytes(id, mq.Pingreq()))
+		if r.Bool() {
+			evs = append(evs, evBytes(id, mq.Subscribe(2, []string{"odd/t"}, []int{1})))
+		}
+		if r.Bool() {
+			evs = append(evs, evBytes(id, mq.Disconnect()))
+		} else {
+			evs = append(evs, evDrop(id))
+		}
+		if cid != "" {
+			id++
+			evs = append(evs, evConnect(id, true, mq.Connect(mq.ConnectOpts{ClientID: cid, Clean: false, KeepAlive: 60, Flags: -1})))
+			evs = append(evs, evBytes(id, mq.Pingreq()))
+			evs = append(evs, evBytes(id, mq.Publish("odd/t", []byte("x"), 0, false, false, 0)))
+			evs = append(evs, evBytes(id, mq.Disconnect()))
+		}
+	}
+	return evs
+}
+
 func genHistory(r *hx.Rng, focus string) []hx.Group {
 	switch k := r.Intn(100); {
 	case k < 18:
